@@ -166,7 +166,8 @@ def execute_real_pair(rec):
         tol = 4 * sw.ulp(tf)
         for k in range(1, len(seq)):
             dt = seq[k] - seq[k - 1]
-            if dt > call['max'] * span + tol or (dt < call['min'] * span - tol and k != len(seq) - 1):
+            # (the final step lands on the end time: its recorded increment may exceed the step taken by the round-off the landing rule absorbs, < 1e-10 of it)
+            if dt > call['max'] * span * (1 + 2e-10) + tol or (dt < call['min'] * span - tol and k != len(seq) - 1):
                 F.add('C05.step_bounds', f'coupled real models, call {ci} step {k}: dt={dt!r} outside [{call["min"] * span!r}, {call["max"] * span!r}]', call=ci, side='pair')
                 break
         if float(pm.pData.time[pm.pData.n]) != times[-1] or float(dm.t) != times[-1]:
@@ -285,7 +286,7 @@ def execute(rec):
         for k in range(1, len(seq)):
             dt = seq[k] - seq[k - 1]
             last = (k == len(seq) - 1) and not stop_requested
-            if dt > m_hi + tol:
+            if dt > m_hi * (1 + (2e-10 if k == len(seq) - 1 else 0.0)) + tol:
                 F.add('C05.step_bounds', f'call {ci} step {k}: dt={dt!r} above maxDtFrac*dt_total={m_hi!r}', call=ci, side='max')
                 break
             if dt < m_lo - tol and not last:
